@@ -446,8 +446,10 @@ def k_fmt(req):
                         ok = v >= 0 and not (fset & set("+ "))
                         if "#" in fset and (v == 0 or verb == "b"):
                             ok = False  # '#' with zero differs between C and Go's fmt; %#b is not C
-                    if "0" in fset and "-" in fset:
-                        ok = ok and True  # C: '-' overrides '0'
+                    if prec == 0 and v == 0 and (fset & set("+ ")):
+                        ok = False  # C prints the sign alone, Go's fmt (to which the Miller docs defer) prints nothing
+                    if "#" in fset and "0" in fset and verb in "xX":
+                        ok = False  # C counts the 0x prefix in the width, Go's fmt pads the digits to the width first
                     if lmod and verb in "Xob":
                         ok = False  # only lld/ld/llx/lx are named by the docs
                     if ok:
@@ -495,6 +497,9 @@ def k_fmtstr(req):
         pre, minus, width, prec, post = m.groups()
         if (width or prec is not None) and not u.isascii():
             out.append("u")  # C counts bytes, Go counts characters
+            continue
+        if width.startswith("0"):
+            out.append("u")  # the 0 flag with %s is undefined in C
             continue
         pf = "%" + minus + width + ("." + prec if prec is not None else "") + "s"
         out.append(S(pre + (pf % u) + post))
